@@ -50,7 +50,7 @@ func init() {
 		c.thoroughBudget = 75 * time.Minute
 		propsCfg[id] = c
 	}
-	for _, id := range []string{"C02", "C03", "C15", "C17"} {
+	for _, id := range []string{"C02", "C03", "C15", "C17", "C18"} {
 		c := propsCfg[id]
 		c.also, c.alsoShards = "hb", 4
 		propsCfg[id] = c
@@ -393,7 +393,7 @@ func check(id, tier string) int {
 			}
 			b, rerr := os.ReadFile(outf)
 			if rerr != nil {
-				if errs[i] == "" {
+				if errs[i] == "" && crashes[i] == "" {
 					errs[i] = fmt.Sprintf("shard %d wrote no result: %s", i, tail(string(out), 2000))
 				}
 				return
